@@ -206,8 +206,8 @@ PROPS = {
     },
     "C15": {
         "title": "Before/after/alternate injection is lowered exactly",
-        "units": ["V4_inject"],
-        "obligations": ["V4_inject.InstrumentationFlag.*", "V4_inject.fn:InstrumentationFlag::*", "V4_inject.fn:Instruction::add_instr", "V4_inject.LocalFunction.*", "V4_inject.fn:LocalFunction::add_instr",
+        "units": ["V4_inject", "V4b_iter_inject"],
+        "obligations": ["V4b_iter_inject.ModuleIterator.*", "V4b_iter_inject.fn:ModuleIterator as *", "V4b_iter_inject.fn:Functions::get_mut"] + ["V4_inject.InstrumentationFlag.*", "V4_inject.fn:InstrumentationFlag::*", "V4_inject.fn:Instruction::add_instr", "V4_inject.LocalFunction.*", "V4_inject.fn:LocalFunction::add_instr",
                         "V4_inject.fn:Body::clear_instr", "V4_inject.fn:FunctionModifier as *"],
         "glue": ["the emission order `before; alternate-or-instruction; after` and the final-`end` rule are ~60 lines inside Module::encode_internal: not under contract (a bounded Kani stand-in was infeasible: encode exceeds CBMC's memory)"],
         "design_ref": "DESIGN.md §5 C15",
@@ -251,13 +251,13 @@ PROPS = {
     },
     "C22": {
         "title": "Special-mode injections are never silently lost",
-        "units": ["V4_inject"],
-        "obligations": ["V4_inject.InstrumentationFlag.add_instr.*", "V4_inject.fn:InstrumentationFlag::add_instr", "V4_inject.is_block_style_op.*", "V4_inject.is_branching_op.*",
+        "units": ["V4_inject", "V4b_iter_inject"],
+        "obligations": ["V4b_iter_inject.ModuleIterator.*", "V4b_iter_inject.fn:ModuleIterator as *", "V4b_iter_inject.fn:Functions::get_mut"] + ["V4_inject.InstrumentationFlag.add_instr.*", "V4_inject.fn:InstrumentationFlag::add_instr", "V4_inject.is_block_style_op.*", "V4_inject.is_branching_op.*",
                         "V4_inject.fn:InstrumentationFlag::is_block_style_op", "V4_inject.fn:InstrumentationFlag::is_branching_op",
                         "V4_inject.FuncInstrFlag.*", "V4_inject.fn:FuncInstrFlag::add_instr", "V4_inject.fn:Instruction::add_instr",
                         "V4_inject.LocalFunction.*", "V4_inject.fn:LocalFunction::add_instr",
                         "V4_inject.FunctionModifier.*", "V4_inject.fn:FunctionModifier as *"],
-        "glue": ["ModuleIterator / ComponentIterator injection methods delegate to LocalFunction::add_instr (one match + call each): not under contract",
+        "glue": ["ComponentIterator injection methods delegate to LocalFunction::add_instr (one match + call each): not under contract (the ModuleIterator ones are, unit V4b)",
                  "that has_special_instr == true suffices for resolution is the first `if` of Module::resolve_special_instrumentation (driver: not under contract)"],
         "design_ref": "DESIGN.md §5 C22",
         "level_text": "Every injection entry point under contract either requires the mode to be applicable to the instruction (the code panics otherwise = rejected at the call) or leaves has_special_instr == old || is_special(mode); proved for all instructions, modes and indices.",
